@@ -136,7 +136,7 @@ def ansiOp (op : String) (j : Json) : Except String Res := do
     pure { model := Json.arr #[Json.str (f Uni.isSpace), Json.str (f Uni.isControl)] }
   | _ => throw s!"unknown ansi op {op}"
 
-def dispatch (j : Json) : Except String Res := do
+def dispatchOp (j : Json) : Except String Res := do
   let opv ← j.getObjVal? "op"
   let op ← opv.getStr?
   match op with
@@ -156,16 +156,27 @@ def dispatch (j : Json) : Except String Res := do
   | "problem" => problemOp j
   | "pubfuzz" => pubFuzzOp j
   | "present" => presentOp j
+  | "rebuild" => rebuildOp j
   | "statusline" | "ctline" | "locline" | "headers" => jtpLineOp op j
   | "fetchseq" => fetchSeqOp j
   | "webfinger" => webfingerOp j
+  | "wfpar" => wfParOp j
   | "pubworld" => pubWorldOp j
   | "ui" => uiOp j
   | "uistress" => uiStressOp j
+  | "mainpty" => mainPtyOp j
   | "paging" => pagingOp j
   | "splice" => spliceOp j
   | "history" => historyOp j
   | "feed" => feedOp j
   | _ => throw s!"unknown op {op}"
+
+/-- An op marked `predicate_only` is judged by its predicates alone (used by properties whose
+    statement does not depend on the exact result: the model's answer is not compared). -/
+def dispatch (j : Json) : Except String Res := do
+  let r ← dispatchOp j
+  if (j.getObjVal? "predicate_only").toOption == some (Json.bool true) then
+    pure { r with model := (j.getObjVal? "impl").toOption.getD Json.null }
+  else pure r
 
 end Ops
